@@ -25,7 +25,7 @@ import (
 
 // WorldCfg is the configuration axis set of a scenario.
 type WorldCfg struct {
-	Dir        string        `json:"dir"` // forward, reverse, nested-ff, nested-rf
+	Dir        string        `json:"dir"`               // forward, reverse, nested-ff, nested-rf
 	Carrier    string        `json:"carrier,omitempty"` // "" = in-memory carrier, "grpc" = real grpc-go over loopback TCP
 	ClientNoFC bool          `json:"client_nofc,omitempty"`
 	ServerNoFC bool          `json:"server_nofc,omitempty"`
